@@ -83,6 +83,7 @@ type verifPollRec struct {
 	relay    int
 	answered bool
 	ansOK    bool
+	rpcErr   bool
 }
 type verifClientRec struct {
 	done   bool
@@ -117,6 +118,7 @@ func verifBrokerScenario(P, C int, rogue bool, symNAT bool) {
 		go func() {
 			var resp []byte
 			err := i.ProxyPolls(messages.Arg{Body: []byte{byte(p)}}, &resp)
+			polls[p].rpcErr = err != nil
 			verifapi.Assert(err == nil, "C02: a well-formed proxy poll is answered with an offer or 'no match' - never consumed by a client that must not be matched")
 			if err == nil && len(resp) == 3 && resp[0] == 'M' {
 				polls[p].matched, polls[p].offer, polls[p].relay = true, int(resp[1]), int(resp[2])
@@ -171,6 +173,29 @@ func verifBrokerScenario(P, C int, rogue bool, symNAT bool) {
 	verifClientFP[0], verifClientNAT[0] = verifFP1, "unknown"
 	i.ClientOffers(messages.Arg{Body: []byte{0}}, &fresh)
 	verifapi.Assert(len(fresh) == 2 && fresh[0] == 'e' && fresh[1] == 1, "C04: a fresh client is told there are no proxies")
+	// ---- C19: each event is counted exactly once in the counter the metrics spec names for it
+	{
+		matches, idle, denied := 0, 0, 0
+		for c := 0; c < C; c++ {
+			if clients[c].answer >= 0 {
+				matches++
+			}
+			if clients[c].errc == 1 {
+				denied++
+			}
+		}
+		for p := 0; p < P; p++ {
+			if polls[p].done && !polls[p].matched && !polls[p].rpcErr {
+				idle++
+			}
+		}
+		m := ctx.metrics
+		verifapi.Assert(int(m.clientProxyMatchCount) == matches, "C19: client-snowflake-match-count counts each answered client once")
+		verifapi.Assert(int(m.proxyIdleCount) == idle, "C19: snowflake-idle-count counts each idle proxy poll once")
+		verifapi.Assert(int(m.clientDeniedCount) == denied+1, "C19: client-denied-count counts each refused client once") // +1: the fresh client above
+		verifapi.Assert(int(m.clientRestrictedDeniedCount+m.clientUnrestrictedDeniedCount) == denied+1, "C19: every denial is counted under exactly one NAT class")
+		verifapi.Assert(int(m.proxyPollWithRelayURLExtension) == P && m.proxyPollWithoutRelayURLExtension == 0, "C19: every proxy poll is counted once under its relay-URL-extension class")
+	}
 	// ---- C02: wiring
 	for c := 0; c < C; c++ {
 		handed := 0
